@@ -66,7 +66,9 @@ def make_plan(run_seed: int, profile: Dict[str, Any]) -> Dict[str, Any]:
     scenario = {
         "family": family, "grammar": grammar, "formula_text": formula_text, "settings": st,
         "formalization": formalization,
-        "cost_weights": None if rng.random() < 0.5 else [rng.choice([0, 1, 2, 6.5, 10, 19]) for _ in range(5)],
+        # an all-zero weight vector makes every queued state cost 0: the processing order is
+        # then decided by hash(state) alone, which must depend on nothing but the hash seed
+        "cost_weights": rng.choice([None, None, [0, 0, 0, 0, 0], [rng.choice([0, 1, 2, 6.5, 10, 19]) for _ in range(5)]]),
         "cost_k": rng.choice([3, 3, 2, 4]),
     }
     n_children = rng.choice([2, 2, 3])
